@@ -416,6 +416,8 @@ def _den(t, env):
             parts = [_den(x, e) for x in t.terms]
             vals.append(parts[0] if len(parts) == 1 else _fold(t.bin_op, parts))
         return np.asarray(_fold(t.red_op, vals))
+    if type(t).__name__ == "Constant":
+        return _den(t.arg, env)              # constant w.r.t. its const inputs: they are ignored
     if type(t).__name__ == "Delta":
         total = np.asarray(0.0)
         for name, (point, logd) in t.terms:
